@@ -46,8 +46,8 @@ known('C25','sharedpoll','push-for-untracked-key:removal:after-untrack-reply','S
 known('C25','sharedpoll','push-outside-subscription:removal:push','SharedPollRevokeKeys racing a client unsubscribe: keyedWriteRemoval -> writePublication checks flagSubscribed under RLock and enqueues outside the lock; the unsubscribe completes in between and the Removed publication is written after the unsubscribe reply')
 known('C25','sharedpoll','push-outside-subscription:update:push',"two publishers with different epochs at once (epoch flip-flop, thorough tier, 2 deviations): both flips collect the connection; the first Client.Unsubscribe has removed the channel but not yet run cleanupKeyed when the second Client.Unsubscribe (a no-op in c.unsubscribe) already writes its unsubscribe push, and the second publisher's broadcast then still finds the key in trackedKeys: a key update is pushed after the unsubscribe push")
 
-known("C37","connlimits","held-over-limit:map","ClientChannelLimit=1, two map subscribe commands (Type=1, Phase=State) for ch0 and ch1 with asynchronous callbacks: validateSubscribeRequest checks the limit for map subscribes without reserving (the reservation happens later in client_map.go without a re-check), both succeed and Channels()=[ch0 ch1]")
-known("C37","connlimits","held-over-limit:map+server","ClientChannelLimit=1, a map subscribe on ch0 in flight and a concurrent server-side Client.Subscribe(ch1): Client.Subscribe counts only len(c.channels) and ignores c.mapSubscribing; both get established, no channel-limit disconnect")
+fixed("C37","connlimits","held-over-limit:map","734864cb","ClientChannelLimit=1, two map subscribe commands (Type=1, Phase=State) for ch0 and ch1 with asynchronous callbacks: validateSubscribeRequest checks the limit for map subscribes without reserving (the reservation happens later in client_map.go without a re-check), both succeed and Channels()=[ch0 ch1]")
+fixed("C37","connlimits","held-over-limit:map+server","30c16baf","ClientChannelLimit=1, a map subscribe on ch0 in flight and a concurrent server-side Client.Subscribe(ch1): Client.Subscribe counts only len(c.channels) and ignores c.mapSubscribing; both get established, no channel-limit disconnect")
 known("C41","surveyx","not-returned-when-all-answered:dup","3 nodes, one node's survey response delivered twice: the duplicates fill the survey channel (capacity = number of nodes) before the collector reads, the last node's answer hits the non-blocking send's default branch and is dropped; Survey blocks until the deadline and returns DeadlineExceeded although every node answered")
 for sig,what in [("first-message-not-connect-reply:reply-written-later","connectCmd registers the client in the hub (addClient) before the connect reply is written: Client.Send reached through Hub().UserConnections(user), or Node.Subscribe(user, ch), enqueues a push ahead of the connect reply"),
   ("first-message-not-connect-reply:reply-never-written","same window followed by Node.Disconnect(user): the push is written and the connect reply never is"),
